@@ -42,6 +42,7 @@ from that rank's own exported slices (grid of 2-rank pairs + random 1-3 rank cas
 from __future__ import annotations
 
 import contextlib
+import copy
 import csv
 import io
 import itertools
@@ -225,6 +226,16 @@ def run_real(case):
         lp = os.path.join(tmp, "comp.log")
         with open(lp, "w") as fh:
             fh.write(render_log(case["log"]))
+        if case.get("decoy"):
+            # an older log of the same name in a sub-directory next to the one given with -c (archive/comp.log),
+            # listing other cycles: the table must come from the file the command line names
+            os.makedirs(os.path.join(tmp, "archive"), exist_ok=True)
+            other = copy.deepcopy(case["log"])
+            for row in other.get("rows", []):
+                if isinstance(row, dict) and isinstance(row.get("cycles"), int):
+                    row["cycles"] = row["cycles"] * 7 + 1000
+            with open(os.path.join(tmp, "archive", "comp.log"), "w") as fh:
+                fh.write(render_log(other))
         argv = ["--freq", f"{case['soc']}:{case['core']}", "-c", lp] + list(case["argv"])
         if len(case["ranks"]) > 1:
             argv.append("-M")
@@ -595,7 +606,7 @@ def rand_case(ctx: Ctx, i):
         ranks.append(ks)
     return {"soc": rng.choice([256, 512, 1024]), "core": rng.choice([512, 1024, 1024, 2048, 1100, 800]),
             "argv": ARGVS[i % len(ARGVS)], "dev_epochs": [rng.randrange(0, 1 << 32, 1024) for _ in range(R)],
-            "log": log, "ranks": ranks, "host_late": rng.random() < 0.35}
+            "log": log, "ranks": ranks, "host_late": rng.random() < 0.35, "decoy": rng.random() < 0.15}
 
 
 def gen_cases(ctx: Ctx):
